@@ -204,7 +204,54 @@ def plan_text(pid, tier, seed):
     )
 
 
+MATH_FNS = {"C12": "sqrt,log2,ln,exp,pow,powi,sin,cos,tan", "C13": "sqrt", "C14": "log2,ln", "C15": "exp,pow,powi",
+            "C16": "sin,cos,tan", "C17": "sqrt,log2,ln,exp,pow,sin,cos,tan"}
+
+
+def plan_math(pid, tier, seed):
+    fns = MATH_FNS[pid]
+    profs = ["unchecked", "checked"] if pid in ("C12", "C17") else ["unchecked"]
+    per = {"C12": 8000, "C13": 1500, "C14": 300, "C15": 400, "C16": 250, "C17": 8000}[pid]
+    gens = [dict(name="math_" + p, profile=p, bin="math", dom="big", per_shard=per,
+                 args=["--topic", fns, "--tier", tier, "--seed", str(seed)]) for p in profs]
+    rules = {
+        "C12": "all nine functions on the 10 signed + 4 unsigned (sqrt) LT layouts and 6 widening S->D pairs, under both build profiles: "
+               "outcome kind must be Ok/Err (never panic, never the iteration-budget sentinel) for the Result functions, Err where the "
+               "request is undefined; sin/cos must return for |x| <= 200 and tan for |x| <= 100 wherever the reference |tan x| <= 64.",
+        "C13": "sqrt on lattice values, every power of two +-3 ulp, random mantissas in every binade, perfect squares +-1 ulp, zero, one, "
+               "negative operands; integer certificate max(r-4,0)^2 <= x * 2^(2fD - fS) <= (r+4)^2, exactness at 0 and 1, Err only for "
+               "negative operands or operands whose reciprocal does not fit.",
+        "C14": "log2 and ln on every exact power of two, 1 +- k ulp, lattice and random mantissas in every binade, non-positive operands; "
+               "reference values computed in TLA+ with 200 fractional bits (atanh series, ln 2 = 2 atanh(1/3)).",
+        "C15": "exp on operands from 0 to +- the overflow threshold of the destination (dense near it), pow on a base x exponent grid plus "
+               "random pairs up to the overflow threshold, powi on lattice/random bases x exponents {0,+-1,+-2,..,+-100,1000,65537,"
+               "i32::MIN(+1),+-i32::MAX, random}; references: e^t by Taylor + ten squarings at 200 bits, x^y = exp(y ln x), exact "
+               "rational x^n; the reciprocal clause of powi is checked against the recorded powi(x,|n|).",
+        "C16": "sin, cos, tan on multiples of pi/4 within +-200 +-3 ulp, random angles in +-200, +-100, +-pi, a stratified sample of the "
+               "I9F23 bit patterns, and large angles outside the accuracy domain (not judged here); references: Taylor series at 200 "
+               "bits after reduction modulo 2 pi with pi from Machin's formula, all computed in TLA+.",
+        "C17": "every function except powi on the C12 corpus, in particular the largest and smallest magnitudes of every layout and "
+               "angles 2^k up to the type's maximum; the hook's loop-iteration counter must stay <= 4 * max(wS, wD) + 64 and the "
+               "budget sentinel (64 x the bound) must never fire.",
+    }
+    return dict(
+        bins=["math"], profiles=profs, gens=gens, designs=[],
+        nontrivial=lambda line: '"x":[0],' not in line,
+        rule=rules[pid] + " Non-trivial: operand different from 0; distinct by event content.",
+        assumptions=["TLC and BigInt.tla are trusted; the reference values are computed inside TLA+ (tla/sem/SemMath.tla) with an error "
+                     "below 2^-160, and every tolerance is widened by that slack",
+                     "layouts: I9F23, I9F55, I9F119, I16F48, I32F32, I41F23, I40F88, I64F64, I96F32, I105F23 (+U9F23, U32F32, U64F64, "
+                     "U96F32 for sqrt; powi is not callable with an unsigned destination, which lacks From<I9F23>)"],
+    )
+
+
 PLANS = {
+    "C12": lambda t, s: plan_math("C12", t, s),
+    "C13": lambda t, s: plan_math("C13", t, s),
+    "C14": lambda t, s: plan_math("C14", t, s),
+    "C15": lambda t, s: plan_math("C15", t, s),
+    "C16": lambda t, s: plan_math("C16", t, s),
+    "C17": lambda t, s: plan_math("C17", t, s),
     "C08": lambda t, s: plan_text("C08", t, s),
     "C09": lambda t, s: plan_text("C09", t, s),
     "C11": lambda t, s: plan_profile("C11", t, s),
